@@ -328,8 +328,9 @@ def evaluate(prop, cases: list, tag: str):
     return obs, dis | pre_dis, fail | pre_fail, hard, errs
 
 
-def shrink_failure(prop, case, budget_s: float = 120.0):
-    """Greedy shrinking: keep a smaller case while the oracle still fails on the implementation."""
+def shrink_failure(prop, case, budget_s: float = 120.0, keep_signature: str | None = None):
+    """Greedy shrinking: keep a smaller case while the oracle still fails on the implementation - in the same way
+    (same signature), so that shrinking cannot drift from a new failure to a known one."""
     if not hasattr(prop, "shrink"):
         return case
     t0 = time.time()
@@ -338,10 +339,12 @@ def shrink_failure(prop, case, budget_s: float = 120.0):
         cands = list(prop.shrink(cur))[:200]
         if not cands:
             break
-        _, _, fail, _, _ = evaluate(prop, cands, "shrink")
-        if not fail:
+        cobs, _, fail, _, _ = evaluate(prop, cands, "shrink")
+        ok = [i for i in sorted(fail)
+              if keep_signature is None or not hasattr(prop, "signature") or prop.signature(cands[i], cobs[i]) == keep_signature]
+        if not ok:
             break
-        cur = cands[min(fail)]
+        cur = cands[ok[0]]
     return cur
 
 
@@ -410,7 +413,7 @@ def run_check(prop, tier: str, seed: int) -> int:
         if sig0 in reported:
             return
         reported.add(sig0)
-        small = shrink_failure(prop, case, budget_s=60.0 if tier == "quick" else 180.0)
+        small = shrink_failure(prop, case, budget_s=60.0 if tier == "quick" else 180.0, keep_signature=sig0)
         so = run_impl(prop.IMPL, [small])[0] if small is not case else o
         sig = prop.signature(small, so) if hasattr(prop, "signature") else "unspecified"
         reported.add(sig)
@@ -424,7 +427,10 @@ def run_check(prop, tier: str, seed: int) -> int:
         out.say(f"VIOLATION property={prop.ID} replay={rp}")
 
     if fail:
-        for i in sorted(fail)[:40]:
+        # every failing case is looked at (cheap: its signature); only a new signature is shrunk and reported
+        for i in sorted(fail):
+            if len(reported) >= 16:
+                break
             report_failure(cases[i], obs[i], "main run")
     unexplained = dis - fail
     if (unexplained or broken) and not out.violations:
